@@ -143,8 +143,10 @@ def r031(an, rep, ci: ClassInfo):
                 if isinstance(n, ast.If) and any(isinstance(b, ast.Raise) for b in n.body) and isinstance(n.test, ast.Compare) and isinstance(n.test.ops[0], ast.NotIn):
                     if isinstance(st.iter, ast.Call) and isinstance(st.iter.func, ast.Name) and st.iter.func.id == "range":
                         loop_guard = True
-    models = {"contiguous": {0: "a", 1: "b", 2: "c"}, "empty": {}, "gap": {0: "a", 2: "b"}, "offset": {1: "a"}, "dangling": {5: "a"}}
-    want_reject = {"contiguous": False, "empty": False, "gap": True, "offset": True, "dangling": True}
+    # position overrides are ints given by the caller: negative ones are possible too (a negative index hides a gap from a test on the maximum)
+    models = {"contiguous": {0: "a", 1: "b", 2: "c"}, "empty": {}, "gap": {0: "a", 2: "b"}, "offset": {1: "a"}, "dangling": {5: "a"},
+              "negative": {-1: "a", 0: "b", 1: "c"}, "negative hiding a gap": {-1: "a", 0: "b", 2: "c"}}
+    want_reject = {"contiguous": False, "empty": False, "gap": True, "offset": True, "dangling": True, "negative": True, "negative hiding a gap": True}
     verdict = None
     why = ""
     for test, kind, node in guards:
@@ -157,7 +159,7 @@ def r031(an, rep, ci: ClassInfo):
         except (FevalError, KeyError, TypeError, ValueError) as ex:
             raise AnalysisError(f"{comp.qual}: guard {norm_src(test)} not evaluable on index-map models: {ex}")
         if res == want_reject:
-            verdict, why = True, f"`{norm_src(test)}` ({kind}) rejects gapped / offset / dangling index maps and accepts contiguous and empty ones"
+            verdict, why = True, f"`{norm_src(test)}` ({kind}) rejects gapped / offset / dangling / negative index maps and accepts contiguous and empty ones"
             break
         why = f"guard `{norm_src(test)}` decides {res}, expected {want_reject}"
     if verdict is None and loop_guard:
